@@ -332,6 +332,12 @@ where
                     }
                 }
                 ctx::phase(1);
+                if self.model.iter().any(|m| m.exp == t && m.blo <= d && c <= m.bhi) {
+                    rep.counters.inc("query_with_value_expiring_exactly_at_t");
+                }
+                if self.model.iter().any(|m| m.exp < t && m.blo <= d && c <= m.bhi) {
+                    rep.counters.inc("query_over_expired_value");
+                }
                 if mon.query {
                     rep.evaluations += 1;
                     let mut want: Vec<u32> = self.model.iter().filter(|m| m.exp >= t && m.blo <= d && c <= m.bhi).map(|m| m.id).collect();
@@ -339,12 +345,6 @@ where
                     let mut g = got.clone();
                     g.sort_unstable();
                     let dup = g.windows(2).any(|w| w[0] == w[1]);
-                    if self.model.iter().any(|m| m.exp == t && m.blo <= d && c <= m.bhi) {
-                        rep.counters.inc("query_with_value_expiring_exactly_at_t");
-                    }
-                    if self.model.iter().any(|m| m.exp < t && m.blo <= d && c <= m.bhi) {
-                        rep.counters.inc("query_over_expired_value");
-                    }
                     if want.len() >= 2 {
                         rep.counters.inc("query_with_2plus_expected");
                     }
